@@ -647,10 +647,11 @@ static void on_watchdog(int) {
   if (write(1, b, (size_t)n) < 0) {}
   syscall(SYS_exit_group, others ? 5 : 4);
 }
+static bool g_wd_armed = false;
+void rearm_watchdog() { g_wd_armed = false; g_wd_last = -1; g_wd_stalls = 0; }
 static void arm_watchdog() {
-  static bool armed = false;
-  if (armed) return;
-  armed = true;
+  if (g_wd_armed) return;
+  g_wd_armed = true;
   struct sigaction sa;
   memset(&sa, 0, sizeof sa);
   sa.sa_handler = on_watchdog;
